@@ -425,4 +425,31 @@ static Reg r_table_bulk("table.bulk", [](const std::vector<std::string> &a) -> s
   return a.size() == 4 ? r + " refused_mappings=" + std::to_string(g_failed_mmaps) : r;
 });
 
+// ---------------------------------------------------------------- util::Pool (the answer store of cache, the strings of vocab / substitute / idf)
+// pool.pages <k>: allocations of 32, 64, ... 32*2^k bytes, each exactly the size of the page the pool opens next, so that the pool opens
+// pages 0..k (page j is 32 << j bytes: 2 GiB at j = 26, 4 GiB at j = 27) without any byte being touched; every allocation must succeed and
+// the pages must not overlap.   -> ok pages=<k+1> bytes=<sum>
+#include "util/pool.hh"
+static Reg r_pool_pages("pool.pages", [](const std::vector<std::string> &a) -> std::string {
+  if (a.size() != 1) return "bad-op";
+  unsigned k = strtoul(a[0].c_str(), NULL, 10);
+  if (k > 29) return "bad-op";
+  util::Pool pool;
+  unsigned long long total = 0;
+  uintptr_t prev_begin = 0, prev_end = 0;
+  try {
+    for (unsigned j = 0; j <= k; ++j) {
+      unsigned long long sz = 32ull << j;
+      uintptr_t b = reinterpret_cast<uintptr_t>(pool.Allocate(sz));
+      if (!b) return "FAIL page " + std::to_string(j) + ": null";
+      if (b < prev_end && b + sz > prev_begin) return "FAIL page " + std::to_string(j) + " overlaps page " + std::to_string(j - 1);
+      prev_begin = b; prev_end = b + sz;
+      total += sz;
+    }
+  } catch (const std::exception &e) {
+    return std::string("FAIL an allocation of ") + std::to_string(32ull << 0) + "*2^j bytes failed after " + std::to_string(total) + " bytes: " + e.what();
+  }
+  return "ok pages=" + std::to_string(k + 1) + " bytes=" + std::to_string(total);
+});
+
 int main() { return pv::main_loop(); }
